@@ -71,7 +71,7 @@ var vfC10Rules = map[string]vfC10RuleDef{
 	"p2": {"peer", "p2"}, "p3": {"peer", "p3"}, "p6": {"peer", "p6"},
 	"a2": {"addr", "127.0.0.2"}, "a6": {"addr", "::1"},
 	"n31": {"subnet", "127.0.0.2/31"}, "n32": {"subnet", "127.0.0.3/32"}, "n8": {"subnet", "127.0.0.0/8"},
-	"n128": {"subnet", "::1/128"},
+	"n128": {"subnet", "::1/128"}, "n0": {"subnet", "::/0"},
 	// the subnets n31 / n8 given with host bits set (as net.Interface.Addrs returns them, for instance)
 	"n31h": {"subnet", "127.0.0.3/31"}, "n8h": {"subnet", "127.0.0.2/8"},
 }
@@ -281,6 +281,7 @@ type vfC10State struct {
 	Att   struct {
 		Dir, Peer, IP, Tpt string
 		K                  int
+		Pre, Opt           string
 	}
 }
 
@@ -296,7 +297,7 @@ func vfC10ParseState(raw json.RawMessage) (vfC10State, error) {
 			return st, fmt.Errorf("state field %d: %v in %s", i, err, string(raw))
 		}
 	}
-	if len(att) != 5 {
+	if len(att) != 7 {
 		return st, fmt.Errorf("att layout %s", string(raw))
 	}
 	st.Att.Dir, _ = att[0].(string)
@@ -306,6 +307,8 @@ func vfC10ParseState(raw json.RawMessage) (vfC10State, error) {
 	if f, ok := att[4].(float64); ok {
 		st.Att.K = int(f)
 	}
+	st.Att.Pre, _ = att[5].(string)
+	st.Att.Opt, _ = att[6].(string)
 	sort.Strings(st.Mem)
 	sort.Strings(st.Disk)
 	sort.Strings(st.Shown)
@@ -320,6 +323,9 @@ type vfC10Conf struct {
 	Subnets   []string            `json:"subnets"`
 	Endpoints [][]string          `json:"endpoints"`
 	Exclusive bool                `json:"exclusive"`
+	Pres      []string            `json:"pres"`
+	Opts      []string            `json:"opts"`
+	Tpts      []string            `json:"tpts"`
 	Faults    []string            `json:"faults"`
 }
 
@@ -824,12 +830,10 @@ func vfC10Consult(g *conngater.BasicConnectionGater, stage, dir string, p peer.I
 		return g.InterceptAddrDial(p, a)
 	case "accept":
 		return g.InterceptAccept(vfC10Stub{vfC10Local, a})
-	case "secured":
-		d := network.DirInbound
-		if dir == "out" {
-			d = network.DirOutbound
-		}
-		return g.InterceptSecured(d, p, vfC10Stub{vfC10Local, a})
+	case "secured_in":
+		return g.InterceptSecured(network.DirInbound, p, vfC10Stub{vfC10Local, a})
+	case "secured_out":
+		return g.InterceptSecured(network.DirOutbound, p, vfC10Stub{vfC10Local, a})
 	case "upgraded":
 		ok, _ := g.InterceptUpgraded(nil)
 		return ok
@@ -837,8 +841,9 @@ func vfC10Consult(g *conngater.BasicConnectionGater, stage, dir string, p peer.I
 	return true
 }
 
-var vfC10StagesOut = []string{"peerdial", "addrdial", "tdial", "secured", "upgraded"}
-var vfC10StagesIn = []string{"accept", "secured", "upgraded"}
+// the plain paths (no connection held, no dial option); "tdial" and "arrive" are not consultations
+var vfC10StagesOut = []string{"peerdial", "addrdial", "tdial", "secured_out", "upgraded"}
+var vfC10StagesIn = []string{"arrive", "accept", "secured_in", "upgraded"}
 
 // pipeline runs all consultations of one attempt back to back (no interleaving)
 func vfC10Pipeline(g *conngater.BasicConnectionGater, dir string, p peer.ID, a ma.Multiaddr) (admitted bool, refusedAt string, dialed bool) {
@@ -849,6 +854,9 @@ func vfC10Pipeline(g *conngater.BasicConnectionGater, dir string, p peer.ID, a m
 	for _, x := range st {
 		if x == "tdial" {
 			dialed = true
+			continue
+		}
+		if x == "arrive" {
 			continue
 		}
 		if !vfC10Consult(g, x, dir, p, a) {
@@ -980,7 +988,7 @@ func (s *vfC10Sys) checkUp(g *conngater.BasicConnectionGater, st vfC10State) {
 		pid := ids[p].id
 		peerDial[p] = g.InterceptPeerDial(pid)
 		f := s.forms[(rot*7+len(p))%len(s.forms)]
-		secIn[p] = vfC10Consult(g, "secured", "in", pid, f.addr)
+		secIn[p] = vfC10Consult(g, "secured_in", "in", pid, f.addr)
 		want := !vfC10In(st.Mem, p)
 		if peerDial[p] != want {
 			s.mismatch("L2:gate:peerdial", fmt.Sprintf("InterceptPeerDial(%s)=%v, model mem %v", p, peerDial[p], st.Mem), want, peerDial[p])
@@ -988,7 +996,7 @@ func (s *vfC10Sys) checkUp(g *conngater.BasicConnectionGater, st vfC10State) {
 		if secIn[p] != want {
 			s.mismatch("L2:gate:secured", fmt.Sprintf("InterceptSecured(in,%s,%s)=%v, model mem %v", p, f.text, secIn[p], st.Mem), want, secIn[p])
 		}
-		if !vfC10Consult(g, "secured", "out", pid, f.addr) {
+		if !vfC10Consult(g, "secured_out", "out", pid, f.addr) {
 			s.mismatch("L2:gate:secured-out", fmt.Sprintf("InterceptSecured(out,%s) refused", p), true, false)
 		}
 		rot++
@@ -1127,6 +1135,14 @@ func (s *vfC10Sys) attStep(op vfh.Op) {
 	}
 	stage := op.S("stage")
 	pid := vfC10Ids()[a.peer].id
+	if stage == "arrive" {
+		// the connection reaches the listener: from here on its own consultations count
+		for _, r := range s.matching(a.peer, a.ip) {
+			a.cont[r] = true
+		}
+		s.contNow(a)
+		return
+	}
 	if stage == "tdial" {
 		if c := s.contNow(a); len(c) > 0 {
 			s.mismatch("blocked-transport-dial:"+vfC10Kind(c[0]), fmt.Sprintf("rule %v blocked during every consultation before the transport dial of peer=%s addr=%s, dial started", c, a.peer, a.form.text), "refused", "dial")
@@ -1156,6 +1172,9 @@ func (s *vfC10Sys) attStep(op vfh.Op) {
 				}
 				if x == "tdial" {
 					dialed = true
+					continue
+				}
+				if x == "arrive" {
 					continue
 				}
 				if !vfC10Consult(g, x, a.dir, pid, a.form.addr) {
